@@ -139,6 +139,8 @@ def payload_for(sep: bytes, n: int, rng):
 def mk(kind, sep, limit, keep_end, hint, chunks, impl):
     cfg = [sep, limit, int(keep_end)] + ([hint] if kind == 1 else [])
     dec = 1 if impl[0] in (b"autosep-ascii",) or (impl[0] == b"line" and impl[1] == b"ascii") else 0
+    if impl[0] == b"jsonl":      # JSONSerializer(use_lines=True): read_until(b"\n", keep_end=True) + json decoding (tabulated)
+        dec = sc.decode_table(0, cfg, impl, b"".join(chunks), "all")
     return [kind, cfg, dec, chunks, impl]
 
 
@@ -181,8 +183,14 @@ def cases_sep(tier, rng, escalate):
             impls = [[b"autosep"]]
             if sep in sc.NEWLINES:
                 impls.append([b"line", b"ascii"])
+            if sep == b"\n":
+                impls.append([b"jsonl"])
             for impl, kind in itertools.product(impls, (0, 1)):
+                if impl[0] == b"jsonl" and kind == 1:
+                    continue            # JSONSerializer has no buffer-filling mode
                 keep_ends = (False, True) if impl[0] == b"line" and thorough else (False,)
+                if impl[0] == b"jsonl":
+                    keep_ends = (True,)
                 for keep_end in keep_ends:
                     R = rng.choice([1, 2, 3, 7])
                     for plen in range(0, limit + seplen + R + 3):
